@@ -115,16 +115,18 @@ var replicaSeq int
 // Replica is one application instance with its own data directory, identity, tx indexer and
 // block store.
 type Replica struct {
-	W          *World
-	ID         Identity
-	Dir        string
-	App        *app.App
-	Indexer    txindex.TxIndexer
-	BlockStore *store.BlockStore
-	bsDB       tmdb.DB
-	IsWitness  bool
-	Crashed    bool // a panic was swallowed by handlePanic (the application closed itself)
-	cfg        *config.Server
+	W           *World
+	ID          Identity
+	Dir         string
+	App         *app.App
+	Indexer     txindex.TxIndexer
+	BlockStore  *store.BlockStore
+	bsDB        tmdb.DB
+	IsWitness   bool
+	Crashed     bool // a panic was swallowed by handlePanic (the application closed itself)
+	KeepPending bool // remember the ordered block cache of the last executed block (diagnostics)
+	LastPending []kvp
+	cfg         *config.Server
 }
 
 // NewReplica creates a fresh node directory and application for the identity.
@@ -352,6 +354,9 @@ func (r *Replica) ExecBlock(b *Block) *BlockResult {
 	res.EndEvents = eb.Events
 	if r.Crashed {
 		return res
+	}
+	if r.KeepPending {
+		r.LastPending = pendingOf(r.App.VerifDeliverState())
 	}
 	res.AppHash = r.Commit()
 	r.IndexBlock(b, res)
